@@ -108,3 +108,15 @@ package twig
 // consume the EOF token.
 //@ func (*Parser).parseInclude props: C05
 //@   loop * invariant parser.tokenIndex < len(parser.tokens)
+
+// ---------------------------------------------------------------- dash insensitivity (C13)
+// Functions whose behaviour must not depend on whether a delimiter token carries a dash.
+//@ list dash_insensitive (*Parser).parseIf (*Parser).parseFor (*Parser).parseBlock (*Parser).parseExtends
+//@ list dash_insensitive (*Parser).parseInclude (*Parser).parseSet (*Parser).parseDo (*Parser).parseMacro
+//@ list dash_insensitive (*Parser).parseImport (*Parser).parseFrom (*Parser).parseSpaceless (*Parser).parseVerbatim
+//@ list dash_insensitive (*Parser).parseApply (*Parser).parseEndTag (*Parser).parseOuterTemplate
+//@ list dash_insensitive (*Parser).parseExpression (*Parser).parseSimpleExpression (*Parser).parseBinaryExpression
+//@ list dash_insensitive (*Parser).parseConditionalExpression (*Parser).parseArrayExpression (*Parser).parseMapExpression (*Parser).parseFilters
+//@ func isBlockStartToken props: C05 C13
+//@   function
+//@   ensures ret == (tokenType == TOKEN_BLOCK_START || tokenType == TOKEN_BLOCK_START_TRIM)
